@@ -28,6 +28,8 @@ type countingProvider struct {
 	inner trace.TracerProvider
 	mu    sync.Mutex
 	ends  map[trace.SpanID]int
+	// starts: name of every span started through the provider, recording or not
+	starts map[trace.SpanID]string
 }
 
 func (p *countingProvider) Tracer(name string, opts ...trace.TracerOption) trace.Tracer {
@@ -42,6 +44,11 @@ type countingTracer struct {
 
 func (t *countingTracer) Start(ctx context.Context, name string, opts ...trace.SpanStartOption) (context.Context, trace.Span) {
 	ctx, sp := t.inner.Start(ctx, name, opts...)
+	t.p.mu.Lock()
+	if t.p.starts != nil {
+		t.p.starts[sp.SpanContext().SpanID()] = name
+	}
+	t.p.mu.Unlock()
 	w := &countingSpan{Span: sp, p: t.p}
 	return trace.ContextWithSpan(ctx, w), w
 }
@@ -78,8 +85,15 @@ func sumCounter(rm *metricdata.ResourceMetrics, name string) int64 {
 // RunOTel checks the bus together with the OpenTelemetry implementation.
 func RunOTel(c *Case) *vkit.Outcome {
 	recorder := tracetest.NewSpanRecorder()
-	tp := sdktrace.NewTracerProvider(sdktrace.WithSpanProcessor(recorder), sdktrace.WithSampler(sdktrace.AlwaysSample()))
-	cp := &countingProvider{inner: tp, ends: map[trace.SpanID]int{}}
+	sampler := sdktrace.AlwaysSample()
+	if c.Unsampled {
+		// the trace is not being recorded (a never/ratio sampler, an upstream
+		// caller that chose not to sample): spans are non-recording, the
+		// metrics count all the same
+		sampler = sdktrace.NeverSample()
+	}
+	tp := sdktrace.NewTracerProvider(sdktrace.WithSpanProcessor(recorder), sdktrace.WithSampler(sampler))
+	cp := &countingProvider{inner: tp, ends: map[trace.SpanID]int{}, starts: map[trace.SpanID]string{}}
 	reader := sdkmetric.NewManualReader()
 	mp := sdkmetric.NewMeterProvider(sdkmetric.WithReader(reader))
 	obs, err := ebuotel.New(ebuotel.WithTracerProvider(cp), ebuotel.WithMeterProvider(mp))
@@ -90,6 +104,39 @@ func RunOTel(c *Case) *vkit.Outcome {
 	}
 	tr, o := workload(c, obs, nil)
 	if len(o.Viol) > 0 {
+		return o
+	}
+	check := func(what string, got, want int) {
+		if got != want {
+			o.Failf("", "%s: OpenTelemetry shows %d, the harness counted %d", what, got, want)
+		}
+	}
+	counters := func() {
+		var rm metricdata.ResourceMetrics
+		if err := reader.Collect(context.Background(), &rm); err != nil {
+			o.Failf("", "collecting metrics: %v", err)
+			return
+		}
+		check("counter eventbus.publish.count", int(sumCounter(&rm, "eventbus.publish.count")), tr.publishes)
+		check("counter eventbus.handler.count", int(sumCounter(&rm, "eventbus.handler.count")), int(tr.entered.Load()))
+		check("counter eventbus.handler.errors", int(sumCounter(&rm, "eventbus.handler.errors")), int(tr.panics.Load()))
+		check("counter eventbus.persist.count", int(sumCounter(&rm, "eventbus.persist.count")), tr.appends)
+		check("counter eventbus.persist.errors", int(sumCounter(&rm, "eventbus.persist.errors")), tr.appendFails)
+	}
+	if c.Unsampled {
+		// nothing is recorded; what was started through the tracer is still
+		// ended exactly once, and the counters are the true numbers
+		cp.mu.Lock()
+		for id, name := range cp.starts {
+			if n := cp.ends[id]; n != 1 {
+				o.Failf("", "unsampled trace: span %q was ended %d times, expected exactly once", name, n)
+				break
+			}
+		}
+		cp.mu.Unlock()
+		counters()
+		classify(c, tr, o)
+		o.Class("trace_not_sampled")
 		return o
 	}
 	started, ended := recorder.Started(), recorder.Ended()
@@ -172,26 +219,12 @@ func RunOTel(c *Case) *vkit.Outcome {
 		o.Failf("", "handler spans per publish span %v, handler invocations per published event %v: handler spans must be children of their own publish span", gotKids, wantKids)
 		return o
 	}
-	check := func(what string, got, want int) {
-		if got != want {
-			o.Failf("", "%s: OpenTelemetry shows %d, the harness counted %d", what, got, want)
-		}
-	}
 	check("publish spans", nPub, tr.publishes)
 	check("handler spans", nHandler, int(tr.entered.Load()))
 	check("handler spans with status Error", errHandler, int(tr.panics.Load()))
 	check("persist spans", nPersist, tr.appends)
 	check("persist spans with status Error", errPersist, tr.appendFails)
-	var rm metricdata.ResourceMetrics
-	if err := reader.Collect(context.Background(), &rm); err != nil {
-		o.Failf("", "collecting metrics: %v", err)
-		return o
-	}
-	check("counter eventbus.publish.count", int(sumCounter(&rm, "eventbus.publish.count")), tr.publishes)
-	check("counter eventbus.handler.count", int(sumCounter(&rm, "eventbus.handler.count")), int(tr.entered.Load()))
-	check("counter eventbus.handler.errors", int(sumCounter(&rm, "eventbus.handler.errors")), int(tr.panics.Load()))
-	check("counter eventbus.persist.count", int(sumCounter(&rm, "eventbus.persist.count")), tr.appends)
-	check("counter eventbus.persist.errors", int(sumCounter(&rm, "eventbus.persist.errors")), tr.appendFails)
+	counters()
 	classify(c, tr, o)
 	_ = fmt.Sprint
 	return o
